@@ -358,6 +358,11 @@ func (r *run) equalsV(t types.Type, x, y value) value {
 		if x.t == yt {
 			return true
 		}
+		if a, ok := parseSmtInt(x.t); ok {
+			if b, ok := parseSmtInt(yt); ok {
+				return a == b
+			}
+		}
 		return &sym{sx("=", x.t, yt), SBool}
 	case *value:
 		return x == y.(*value)
@@ -768,7 +773,9 @@ func (r *run) symBinop(fr *frame, op token.Token, t types.Type, x, y value, inst
 			}
 			return &sym{r.wrapIfNeeded(ii, sx("*", a, b)), SInt}
 		case token.QUO, token.REM:
-			if !r.branch(&sym{sx("not", sx("=", b, "0")), SBool}) {
+			if bc, ok := parseSmtInt(b); ok && bc != 0 {
+				// concrete non-zero divisor
+			} else if !r.branch(&sym{sx("not", sx("=", b, "0")), SBool}) {
 				panic(targetPanic{msg: "integer divide by zero", pos: fr.pos(instr)})
 			}
 			if op == token.QUO {
